@@ -165,6 +165,7 @@ def find_masters(prog: Program):
             raise AnalysisError(f"{f.where} {f.qualname}: expected exactly one "
                                 f"`if mpi.available:` around submit_call, found {len(ifs)}")
         masters.append(Master(f, ifs[0]))
+        masters[-1].prog = prog
     return masters
 
 
@@ -248,6 +249,16 @@ def q2(run: Run, m: Master):
         fail("Q2", "order", f"{key}: results are collected before/without all "
              f"chunks being submitted", gl)
         ok = False
+    def _is_range(e):
+        return isinstance(e, ast.Call) and ast.unparse(e.func) == "range"
+    if not (_is_range(sl.iter) and _is_range(gl.iter)):
+        # chunks handed out by an iterator object (a plan, a generator method):
+        # which ids are submitted is not derived - the pairing is not decided
+        run.unknowns.append(f"Q2: {key}: the submit / collect loops do not both iterate "
+                            f"a range (`{ast.unparse(sl.iter)[:40]}` / "
+                            f"`{ast.unparse(gl.iter)[:40]}`); pairing of ids not decided")
+        run.oblige("Q2", key + ":pair", True, nontrivial=False)
+        return ok
     if _d(sl.iter) != _d(gl.iter) or not (
             isinstance(sl.iter, ast.Call) and ast.unparse(sl.iter.func) == "range"
             and len(sl.iter.args) == 1):
@@ -346,6 +357,63 @@ def _assigns(stmts):
     return out
 
 
+_ONE_SHOT = ("zip", "map", "filter", "iter", "enumerate", "reversed")
+
+
+def q8(run: Run, m: Master):
+    """A one-shot iterator (zip / map / generator expression ...) bound to a
+    local of a master function is consumed once: a second consumer (a list() for
+    a message, a second loop) finds it empty, so the chunks it describes are
+    never submitted - the more so when the first consumer runs only at some
+    verbosity."""
+    f, key = m.f, m.f.qualname
+    n = 0
+    for st in ast.walk(f.node):
+        if not (isinstance(st, ast.Assign) and len(st.targets) == 1 and
+                isinstance(st.targets[0], ast.Name)):
+            continue
+        v = st.value
+        one_shot = isinstance(v, ast.GeneratorExp) or (
+            isinstance(v, ast.Call) and isinstance(v.func, ast.Name) and
+            v.func.id in _ONE_SHOT)
+        if not one_shot:
+            continue
+        name = st.targets[0].id
+        # re-bound later: each binding is judged on its own only when unique
+        if sum(1 for s_ in ast.walk(f.node) if isinstance(s_, ast.Assign)
+               and any(isinstance(t, ast.Name) and t.id == name for t in s_.targets)) != 1:
+            continue
+        consumers = []
+        for x in ast.walk(f.node):
+            if isinstance(x, (ast.For, ast.comprehension)) and any(
+                    isinstance(y, ast.Name) and y.id == name for y in ast.walk(x.iter)):
+                consumers.append(x.iter)
+            elif isinstance(x, ast.Call) and x is not v and any(
+                    (isinstance(a, ast.Name) and a.id == name) or
+                    (isinstance(a, ast.Starred) and isinstance(a.value, ast.Name)
+                     and a.value.id == name) for a in x.args) and not (
+                        isinstance(x.func, ast.Name) and x.func.id in _ONE_SHOT):
+                consumers.append(x)
+        # a wrapper such as enumerate(parts) inside a for-iter was counted once
+        # through the for; drop calls that are themselves (part of) a loop iter
+        iters = [c for c in consumers if not isinstance(c, ast.Call) or True]
+        uniq = []
+        for c in iters:
+            if not any(c is not d and any(z is c for z in ast.walk(d)) for d in iters):
+                uniq.append(c)
+        n += 1
+        ok = len(uniq) <= 1
+        run.oblige("Q8", f"{key}:{name}", ok, sample={
+            "where": f"{f.module.relpath}:{st.lineno}", "consumers": len(uniq)})
+        if not ok:
+            lines = sorted(getattr(c, "lineno", st.lineno) for c in uniq)
+            run.add("Q8", f"{key}/one-shot/{name}", f"{f.module.relpath}:{lines[1]}",
+                    f"{key}: `{name} = {ast.unparse(v)[:50]}` is a one-shot iterator but is "
+                    f"consumed {len(uniq)} times (lines {lines}): after the first "
+                    f"consumer it is empty, the later one sees no chunks")
+    run.count("Q8", n)
+
+
 def q4(run: Run, m: Master):
     f, key = m.f, m.f.qualname
     if m.submit_loop is None:
@@ -363,6 +431,13 @@ def q4(run: Run, m: Master):
                 f"{key}: {msg}")
 
     ok = True
+    if not (isinstance(sl.iter, ast.Call) and ast.unparse(sl.iter.func) == "range"):
+        # the chunks come from an iterator object: the chunking arithmetic is
+        # not in this function; not decided (see the same note of Q2)
+        run.unknowns.append(f"Q4: {key}: chunk bounds are produced by "
+                            f"`{ast.unparse(sl.iter)[:40]}`; the partition lemma is not "
+                            f"applied")
+        return None
     idx = sl.target.id if isinstance(sl.target, ast.Name) else None
     parts = sl.iter.args[0].id if (isinstance(sl.iter, ast.Call) and sl.iter.args and
                                    isinstance(sl.iter.args[0], ast.Name)) else None
@@ -695,6 +770,25 @@ def _canon_worker(cy, m):
                     for n, (ty, init, ln) in f.locals.items()}
         return g
     fi = t[1]
+    prog_ = getattr(m, "prog", None)
+    if prog_ is not None:
+        # a thin worker that forwards to a private module-level function (or a
+        # private method) is analysed as that function's statements
+        from .idioms import inline_simple_helpers
+
+        def _res(hn, _f=fi):
+            if not hn.startswith("_") or hn.startswith("__"):
+                return None
+            h = prog_.lookup(_f.cls, hn) if _f.cls is not None else None
+            if h is None:
+                r_ = prog_.resolve_name(_f.module, hn)
+                h = r_[1] if r_ and r_[0] == "func" else None
+            return h.node if h is not None and h is not _f and \
+                isinstance(h.node, ast.FunctionDef) else None
+        node = inline_simple_helpers(fi.node, _res)
+        if ast.dump(node) != ast.dump(fi.node):
+            fi = copy.copy(fi)
+            fi.node = node
     mp = {}
     for i, n in enumerate(fi.params):
         if i in roles:
@@ -1005,6 +1099,15 @@ def _py_index_classes(wf: FuncInfo):
                 cls[n.target.id] = "rel"
             else:
                 cls[n.target.id] = "full"
+    # scalars derived from a loop counter once (`i_rel = i - start_i`)
+    from .idioms import single_defs
+    defs = single_defs(wf.node)
+    for _ in range(3):
+        for nm, v in defs.items():
+            if nm not in cls:
+                k = _classify_py(v, cls)
+                if k in ("rel", "abs"):
+                    cls[nm] = k
     return cls
 
 
@@ -1246,7 +1349,10 @@ def check(run: Run, prog: Program, cy: CyProgram):
     run.floor("MPI master loops", len(masters), 3, hard=True)
     q1(run, prog, [m.f for m in masters] +
        [prog.classes["Network"].methods["_nsi_betweenness"]])
+    run.rule("Q8", "a one-shot iterator (zip, map, generator ...) bound to a local of a "
+             "master function has a single consumer")
     for m in masters:
+        q8(run, m)
         pair_ok = q2(run, m)
         q4(run, m)
         if m.submit_loop is not None and m.collect_loop is not None:
